@@ -203,11 +203,7 @@ func genC09(g *Gen) *Plan {
 			rec.ETag = `"abc"`
 		}
 	}
-	var s []Reply
-	for i := 0; i < 4000; i++ {
-		s = append(s, rec)
-	}
-	p.Scripts = map[string][]Reply{key: s}
+	p.Scripts = map[string][]Reply{key: {rec}} // the last entry of a script repeats
 	p.Default = cacheable(3000, 30)
 	iters := 24
 	start := g.n(0, 1400)
